@@ -3,7 +3,7 @@
 # property's quick check reports the violation again (a fixed entry suppresses nothing).
 cd "$(dirname "$0")/.." || exit 2
 WT=/tmp/vf-revert-wt
-grep '^fixed:' KNOWN_FINDINGS.txt | while read -r _ prop sha rest; do
+grep "^fixed:" KNOWN_FINDINGS.txt | grep -E "${REVERT_ONLY:-.}" | while read -r _ prop sha rest; do
   prop=${prop#property=}
   git -C /repo worktree remove --force $WT >/dev/null 2>&1; rm -rf $WT
   git -C /repo worktree add -q --detach $WT HEAD || { echo "$prop $sha WORKTREE-FAILED"; continue; }
